@@ -2,6 +2,7 @@
 mod buffer;
 mod cli;
 mod codec;
+mod dump;
 #[allow(dead_code)]
 #[path = "/repo/slicec/src/definition_types.rs"]
 mod definition_types;
@@ -33,13 +34,14 @@ static GLOBAL: Counting = Counting;
 fn main() {
     let comp = std::env::args().nth(1).unwrap_or_default();
     // Panics are reported per case; keep the default hook quiet.
-    std::panic::set_hook(Box::new(|_| {}));
+    if std::env::var("VH_VERBOSE").is_err() { std::panic::set_hook(Box::new(|_| {})); }
     let handler: fn(&[&str]) -> String = match comp.as_str() {
         "codec" => codec::handle,
         "buffer" => buffer::handle,
         "cli" => cli::handle,
         "prep" => |t| front::prep(&t[1..]),
         "diags" => |t| front::diags(&t[1..]),
+        "dump" => |t| dump::dump(&t[1..]),
         _ => {
             eprintln!("unknown component {comp}");
             std::process::exit(2);
@@ -56,5 +58,6 @@ fn main() {
             Err(_) => "panic".to_string(),
         };
         writeln!(out, "{res}").unwrap();
+        out.flush().unwrap(); // so that a crash is attributed to the right case
     }
 }
